@@ -250,6 +250,21 @@ func genC06(t *rapid.T) c06Case {
 				}
 				groups[g].defs[key] = val
 				cs.Features = append(cs.Features, "valueless-environment-entry")
+				// the same for a build argument without a value
+				if bw, ok := sm["build"].(map[string]any); ok {
+					if bp, ok := vm["build"].(map[string]any); ok {
+						aw, _ := bw["args"].(map[string]any)
+						ap, _ := bp["args"].(map[string]any)
+						if (aw != nil || bw["args"] == nil) && (ap != nil || bp["args"] == nil) {
+							if aw == nil {
+								aw, ap = map[string]any{}, map[string]any{}
+								bw["args"], bp["args"] = aw, ap
+							}
+							aw[key], ap[key] = nil, val
+							cs.Features = append(cs.Features, "valueless-build-argument")
+						}
+					}
+				}
 			}
 			put(groups[g].doc, kind, name, sm)
 			put(pasted, kind, name, prefixPaths(vm, baseDir(g)))
